@@ -1,7 +1,9 @@
 (* C19 -- the structure of the copy phase and of validate() that the hand model was written against.
    Gen/SettingsTables.v carries the same lists re-read from the ast of /repo on every run; the theorem
    model_skeleton_matches_source (Props/C19.v) fails as soon as a field is added/dropped/copied instead
-   of aliased, a call is reordered, or a new in-place list mutation appears. *)
+   of aliased, a call is reordered, a new in-place list mutation appears, or a re-binding of an attribute
+   of `other` to a new object appears/disappears (e.g. the copy made by _sanity_check_implementations
+   since /repo 851aa29). *)
 From Coq Require Import List String.
 From TV Require Import Gen.SettingsTables.
 Import ListNotations.
@@ -69,9 +71,15 @@ Definition expected_validate_seq : list string := [
   "return:other"].
 Definition expected_mutation_sites : list (string * string) := [
   ("_remove_all_matches", "setitem:values[:]")].
+Definition expected_rebinds : list (string * string) := [
+  ("_sanityCheckProtocolVersions", "versions:ListComp");
+  ("_sanity_check_ciphers", "cipherNames:Subscript");
+  ("_sanity_check_implementations", "cipherImplementations:Subscript");
+  ("validate", "macNames:ListComp")].
 Definition expected_init_attrs : list string := ["minKeySize"; "maxKeySize"; "rsaSigHashes"; "rsaSchemes"; "dsaSigHashes"; "virtual_hosts"; "eccCurves"; "dhParams"; "dhGroups"; "defaultCurve"; "keyShares"; "padding_cb"; "use_heartbeat_extension"; "heartbeat_response_callback"; "certificateTypes"; "useExperimentalTackExtension"; "sendFallbackSCSV"; "useEncryptThenMAC"; "ecdsaSigHashes"; "more_sig_schemes"; "usePaddingExtension"; "useExtendedMasterSecret"; "requireExtendedMasterSecret"; "pskConfigs"; "psk_modes"; "ticketKeys"; "ticketCipher"; "ticketLifetime"; "max_early_data"; "ticket_count"; "record_size_limit"; "ec_point_formats"; "certificate_compression_send"; "certificate_compression_receive"; "dc_sig_algs"; "dc_valid_time"; "minVersion"; "maxVersion"; "versions"; "cipherNames"; "macNames"; "keyExchangeNames"; "cipherImplementations"].
 
 Lemma skeleton_ok :
   gen_copies = expected_copies /\ gen_validate_seq = expected_validate_seq /\
-  gen_mutation_sites = expected_mutation_sites /\ gen_init_attrs = expected_init_attrs.
+  gen_mutation_sites = expected_mutation_sites /\ gen_rebinds = expected_rebinds /\
+  gen_init_attrs = expected_init_attrs.
 Proof. repeat split; reflexivity. Qed.
